@@ -349,7 +349,9 @@ class SeriesOps:
             if name in ("insert", "pop", "remove", "clear", "sort", "reverse"):
                 self.log("list-mutation", node, what=name)
                 # a plain Python list of concrete values handled outside any symbolic loop: do what the list does
-                if I.run.loop_depth == 0 and not any(isinstance(x, Each) for x in obj) and all(isinstance(x, (str, int, float, bool)) or x is None for x in obj) \
+                prim = lambda x: isinstance(x, (str, int, float, bool)) or x is None
+                # (pop / clear / reverse do not compare elements: any known elements; remove / insert of plain values only)
+                if I.run.loop_depth == 0 and not any(isinstance(x, Each) for x in obj) and (all(prim(x) for x in obj) or (name in ("pop", "clear", "reverse") and all(prim(x) or isinstance(x, (Obj, PyTuple, list, dict)) for x in obj))) \
                         and all(isinstance(p_, (str, int, float, bool)) for p_ in pos) and not kw and name in ("pop", "insert", "remove", "clear", "reverse"):
                     try:
                         return getattr(obj, name)(*pos)
